@@ -26,19 +26,19 @@ Definition regex_sites : list re_site := [
   (* interp/interp.go:47 *)
   mkReSite "interp" "interp.go" "(package variable)" "MustCompile" "`(?s)^([_a-zA-Z][_a-zA-Z0-9]*)=(.*)`"
     (TPkgVar "varRegex") false [] false;
-  (* interp/interp.go:897 *)
+  (* interp/interp.go:901 *)
   mkReSite "interp" "interp.go" "setSpecial" "Compile" "compiler.AddRegexFlags(p.fieldSep)"
     (TLocal "re") true [] true;
-  (* interp/interp.go:923 *)
+  (* interp/interp.go:927 *)
   mkReSite "interp" "interp.go" "setSpecial" "MustCompile" "sep"
     (TField "p.recordSepRegex") true [] true;
-  (* interp/interp.go:928 *)
+  (* interp/interp.go:932 *)
   mkReSite "interp" "interp.go" "setSpecial" "MustCompile" "sep"
     (TField "p.recordSepRegex") true [] true;
-  (* interp/interp.go:931 *)
+  (* interp/interp.go:935 *)
   mkReSite "interp" "interp.go" "setSpecial" "Compile" "compiler.AddRegexFlags(p.recordSep)"
     (TLocal "re") true [] true;
-  (* interp/interp.go:1092 *)
+  (* interp/interp.go:1096 *)
   mkReSite "interp" "interp.go" "compileRegex" "Compile" "compiler.AddRegexFlags(regex)"
     (TLocal "re") true [] true;
   (* internal/compiler/compiler.go:1114 *)
